@@ -33,6 +33,8 @@ def cfg_name(c):
                                                              "ae" if c["SV_AE"] else "", "c" if c["SV_CONSTRUCT"] else "")
     if c.get("SV_THROWDEF"):
         a += "td"
+    if c.get("SV_SIZET"):
+        a += "-" + c["SV_SIZET"].replace("std::uint", "u").replace("_t", "")
     return "%s/%s/N%d,%d" % (c["SV_T"], a, c["SV_NA"], c["SV_NB"])
 
 
@@ -60,6 +62,11 @@ Q = {
     "int-f101":     cfg("int", 2, 2, 5, 1, 0, 1),
     "tthrow-f011":  cfg("TThrow", 2, 0, 3, 0, 1, 1),
     "tmo-f111":     cfg("TMoveOnly", 2, 1, 8, 1, 1, 1),
+    # allocator size_type narrower than int: every size computation in the header goes through integer promotion and back
+    # (uint16_t: max_size() 65535/sizeof(T) is far above anything a history reaches, so the model needs no limit awareness)
+    "tnx-l000-u16": dict(cfg("TNx", 1, 2, 5), SV_SIZET="std::uint16_t"),
+    "int-l101-u16": dict(cfg("int", 1, 0, 4, 1, 0, 1), SV_SIZET="std::uint16_t"),
+    "tthrow-f011-u16": dict(cfg("TThrow", 2, 3, 1, 0, 1, 1), SV_SIZET="std::uint16_t"),
 }
 QTD = {
     "tnx-td":       cfg("TNx", 1, 2, 5, throwdef=1),
@@ -76,7 +83,7 @@ def thorough_matrix():
     i = 0
     for fi, f in enumerate(flavours):
         out["%s-std" % f] = cfg(f, 0, *npairs[fi % len(npairs)])
-    for k in ("tnx-f000", "int-f101", "tthrow-f011", "tmo-f111"):
+    for k in ("tnx-f000", "int-f101", "tthrow-f011", "tmo-f111", "tnx-l000-u16", "int-l101-u16", "tthrow-f011-u16"):
         out[k] = Q[k]
     for combo in range(8):
         for ae in (0, 1):
@@ -222,9 +229,9 @@ def check_C01(tier, seed):
     mon = ["--monitors", "C01"]
     plan = []
     if tier == "quick":
-        for k in ("int-std", "tnx-l000", "tthrow-l000", "tco-l010", "tmo-l111", "tnx-f000"):
+        for k in ("int-std", "tnx-l000", "tthrow-l000", "tco-l010", "tmo-l111", "tnx-f000", "tnx-l000-u16"):
             plan += shards(Q[k], "asan-dbg", ["--mode", "sweep", "--level", 0] + mon, 2)
-        for k in ("int-std", "tnx-l000", "tthrow-l000", "tthrow-std", "tmo-l111", "tco-l010", "tnx-l101ae", "tmot-l001", "int-l111", "tnx-f000", "int-f101"):
+        for k in ("int-std", "tnx-l000", "tthrow-l000", "tthrow-std", "tmo-l111", "tco-l010", "tnx-l101ae", "tmot-l001", "int-l111", "tnx-f000", "int-f101", "tnx-l000-u16", "int-l101-u16"):
             plan.append(hist_run(Q[k], "asan-dbg", ["--mode", "random", "--cases", 600, "--len", 60, "--seed", seed] + mon))
         for k in ("int-std", "tnx-l000"):
             plan.append(hist_run(Q[k], "asan-rel", ["--mode", "random", "--cases", 1500, "--len", 60, "--seed", seed + 1] + mon))
@@ -266,11 +273,11 @@ def check_C02(tier, seed):
     mon = ["--monitors", "C02"]
     plan = []
     if tier == "quick":
-        for k in ("tnx-l000", "tthrow-l000", "tmo-l111", "tnx-l101", "int-std", "tnx-f000"):
+        for k in ("tnx-l000", "tthrow-l000", "tmo-l111", "tnx-l101", "int-std", "tnx-f000", "int-l101-u16"):
             plan += shards(Q[k], "asan-dbg", ["--mode", "sweep", "--level", 0] + mon, 2)
         for k in Q:
             plan.append(hist_run(Q[k], "asan-dbg", ["--mode", "random", "--focus", "alloc", "--cases", 500, "--len", 60, "--seed", seed] + mon))
-        for k in ("tthrow-l000", "tmot-l001", "tco-l010", "tthrow-f011"):
+        for k in ("tthrow-l000", "tmot-l001", "tco-l010", "tthrow-f011", "tthrow-f011-u16"):
             plan += shards(Q[k], "asan-dbg", ["--mode", "fault", "--level", 0] + mon, 2)
     else:
         M = thorough_matrix()
@@ -468,7 +475,7 @@ def check_C10(tier, seed):
     mon = ["--monitors", "C10"]
     plan = []
     if tier == "quick":
-        for k in ("tnx-l000", "tthrow-l000", "int-std", "tco-l010", "tmo-l111", "tnx-l101", "int-l111", "tnx-f000"):
+        for k in ("tnx-l000", "tthrow-l000", "int-std", "tco-l010", "tmo-l111", "tnx-l101", "int-l111", "tnx-f000", "tnx-l000-u16"):
             plan += shards(Q[k], "asan-dbg", ["--mode", "sweep", "--level", 0] + mon, 2)
         for k in ("tnx-l000", "tthrow-l000", "int-std", "tco-l010", "tmo-l111", "tthrow-std", "tnx-l101ae", "tnx-l000c", "int-l111", "tnx-l101", "tsw-l110", "int-f101"):
             plan.append(hist_run(Q[k], "asan-dbg", ["--mode", "random", "--focus", "grow", "--cases", 500, "--len", 60, "--seed", seed] + mon))
@@ -599,7 +606,7 @@ def check_C14(tier, seed):
     plan = []
     n = 1000000 if tier == "quick" else 50000000
     if tier == "quick":
-        for k in ("int-std", "tnx-l000", "tthrow-l000", "tco-l010"):
+        for k in ("int-std", "tnx-l000", "tthrow-l000", "tco-l010", "tnx-l000-u16", "int-f101"):
             plan.append(hist_run(Q[k], "asan-dbg", ["--mode", "random", "--focus", "grow", "--cases", 500, "--len", 60, "--seed", seed] + mon))
             plan += shards(Q[k], "asan-dbg", ["--mode", "sweep", "--level", 0] + mon, 2)
     else:
@@ -659,7 +666,7 @@ def check_C12(tier, seed):
     run_simple_engines(rp, "C12", "limits", jobs)
     # the same wrap monitor under ordinary call histories (size_t configurations): any report inside the header is a C12 violation
     plan = []
-    for k in (("int-std", "tnx-l000") if tier == "quick" else ("int-std", "tnx-l000", "tthrow-l011", "tmo-l111", "int-l111", "tco-l010")):
+    for k in (("int-std", "tnx-l000", "tnx-l000-u16", "int-l101-u16") if tier == "quick" else ("int-std", "tnx-l000", "tthrow-l011", "tmo-l111", "int-l111", "tco-l010", "tnx-l000-u16", "int-l101-u16", "tthrow-f011-u16", "int-f101")):
         plan.append(hist_run(Q[k], "clang-wrap", ["--mode", "random", "--cases", 20000 if tier == "quick" else 200000, "--len", 60, "--seed", seed, "--monitors", "C12"], env=WRAP_ENV))
         plan.append(hist_run(Q[k], "clang-wrap", ["--mode", "sweep", "--level", 0, "--monitors", "C12"], env=WRAP_ENV))
     run_hist_plan(rp, "C12", plan)
